@@ -125,6 +125,30 @@ def make_device(rng: random.Random, *, holes=0, terminals=2, max_edge_length=Non
     raise RuntimeError("could not build a device mesh")
 
 
+def independent_terminal_sites(dev, margin=1e-7):
+    """Terminal sites recomputed from first principles: mesh sites on the boundary of the triangulation (vertices of an
+    edge that belongs to exactly one triangle) that lie inside the terminal polygon.  Returns, per terminal name,
+    (surely_inside, possibly_inside): shapely membership of the polygon shrunk / grown by `margin` (in length units),
+    so that sites within rounding of the polygon outline are not judged."""
+    from collections import Counter
+    from shapely.geometry import Polygon as SP, Point
+    tri = np.asarray(dev.mesh.elements)
+    cnt = Counter()
+    for a, b, c in tri:
+        for e in ((a, b), (b, c), (c, a)):
+            cnt[(min(e), max(e))] += 1
+    bsites = sorted({v for e, k in cnt.items() if k == 1 for v in e})
+    pts = np.asarray(dev.points)
+    out = {}
+    for t in dev.terminals:
+        poly = SP(t.points)
+        inner, outer = poly.buffer(-margin), poly.buffer(margin)
+        sure = [i for i in bsites if inner.contains(Point(pts[i]))]
+        maybe = [i for i in bsites if outer.contains(Point(pts[i]))]
+        out[t.name] = (np.array(sure, dtype=int), np.array(maybe, dtype=int))
+    return out
+
+
 # ---------------------------------------------------------------- literals
 def mesh_arrays(mesh):
     em = mesh.edge_mesh
